@@ -78,7 +78,8 @@ impl Sm9EncKey {
             x.iter().all(|&byte| byte == 0)
         }
 
-        if !is_zero(&k) {
+        // B3: an all-zero K1 is an error
+        if !is_zero(&k[0..mlen].to_vec()) {
             let k = k.as_slice();
             let k1 = &k[0..mlen];
             let k2 = &k[mlen..];
@@ -139,7 +140,8 @@ impl Sm9EncMasterKey {
                 x.iter().all(|&byte| byte == 0)
             }
 
-            if !is_zero(&k) {
+            // A6: if K1 is all zero, draw another r
+            if data.is_empty() || !is_zero(&k[0..data.len()].to_vec()) {
                 break;
             }
         }
